@@ -618,6 +618,48 @@ func (c *Ctx) startMesh() modeling.Mesh {
 	}
 }
 
+// opsFor biases the choice towards operations the mesh's topology admits (rejections still occur)
+func (c *Ctx) opsFor(m modeling.Mesh, all []string) string {
+	for tries := 0; tries < 4; tries++ {
+		name := all[c.Rng.Intn(len(all))]
+		ok := true
+		switch name {
+		case "flip", "weld", "removenull", "split", "smoothnormals", "flatnormals":
+			ok = m.Topology() == modeling.TriangleTopology
+		case "laplacian":
+			// line and line-loop neighbour tables are not modelled (and an empty line loop makes
+			// VertexNeighborTable index m.indices[0]); see notes/C03.md
+			ok = m.Topology() == modeling.TriangleTopology || m.Topology() == modeling.LineStripTopology
+		case "crop":
+			ok = m.Topology() == modeling.PointTopology
+		case "filter":
+			ok = m.Topology() == modeling.PointTopology
+		case "topointcloud":
+			ok = m.Topology() != modeling.PointTopology || c.Rng.Intn(4) == 0
+		}
+		if ok || c.Rng.Intn(10) == 0 {
+			if name == "laplacian" && (m.Topology() == modeling.LineTopology || m.Topology() == modeling.LineLoopTopology) {
+				continue
+			}
+			return name
+		}
+	}
+	return "unweld"
+}
+
+// guardSeq runs one generated sequence; a panic that escapes the per-operation guards (the harness
+// itself reading a mesh the implementation returned, e.g. Tri(i).Area3D on out-of-range indices)
+// is reported as an oracle line answered "panic" instead of crashing the stream.
+func (c *Ctx) guardSeq(op string, f func()) {
+	defer func() {
+		if r := recover(); r != nil {
+			c.Note("sequence-panic")
+			c.Emit(op, "unreadable sequence-panic", "panic")
+		}
+	}()
+	f()
+}
+
 // noteMesh records the shape class of an input for the distribution report
 func (c *Ctx) noteMesh(prefix string, m modeling.Mesh) {
 	c.Note(prefix + ":topo=" + strings.ReplaceAll(m.Topology().String(), " ", ""))
@@ -649,6 +691,6 @@ func (c *Ctx) mv3() vector3.Float64 { return vector3.New(c.mfl(), c.mfl(), c.mfl
 func (c *Ctx) mquat() quaternion.Quaternion {
 	return quaternion.New(c.mv3(), c.mfl())
 }
-func mvF(v vector3.Float64) string        { return Fs(v.X(), v.Y(), v.Z()) }
+func mvF(v vector3.Float64) string       { return Fs(v.X(), v.Y(), v.Z()) }
 func mqF(q quaternion.Quaternion) string { return Fs(q.Dir().X(), q.Dir().Y(), q.Dir().Z(), q.W()) }
 func mbbF(b geometry.AABB) string        { return mvF(b.Center()) + " " + mvF(b.Size().Scale(0.5)) }
